@@ -237,6 +237,118 @@ func (d *docEnum) at(i uint64) (pre, post string) {
 	return a.String(), b.String()
 }
 
+// docSource is an index-addressable set of documents with one hole.
+type docSource interface {
+	size() uint64
+	at(i uint64) (pre, post string)
+}
+
+// listDoc is one document of an explicit list. When alonePre is not empty
+// the document has a differential twin: the same hole in a shorter document,
+// whose rendering, without its first aloneCut bytes, must be a suffix of the
+// rendering of the document.
+type listDoc struct {
+	pre, post     string
+	alonePre      string
+	aloneCut      int
+	first, second string // description of the two attributes (pair documents)
+}
+
+type docList []listDoc
+
+func (d docList) size() uint64 { return uint64(len(d)) }
+
+func (d docList) at(i uint64) (pre, post string) { return d[i].pre, d[i].post }
+
+// elementStateDocs enumerates (ending state x ending state x next opening
+// context): up to two elements or attributes that END in every lexer state
+// (inside a // or /* comment, inside a string, in a URL, ...), then an atom
+// that opens an element or attribute up to a value position, then the hole.
+// Lexer state that must be reset at the end of an element is visible in the
+// context of the hole of the next element.
+func elementStateDocs() docList {
+	endings := []string{
+		"<script>x // c</script>", "<script>x /* c</script>", `<script>"s</script>`, "<script>'s</script>", "<script>x</script>",
+		"<script>x = `s</script>", "<script>x = /r</script>",
+		`<script type="application/ld+json">"s</script>`, `<script type="application/ld+json">{"a":1}</script>`,
+		"<style>a /* c</style>", `<style>"s</style>`, "<style>'s</style>", "<style>a{}</style>",
+		`<a title="x">`, "<a title='x'>", "<a title=x>", `<a href="x?y=1">`, "<a href=x?y=1>", `<a title="x`, `<a href="x`,
+		"<textarea>x</textarea>", "<!-- c -->",
+	}
+	openers := []string{
+		`<script>var a = "`, "<script>var a = ", "<script>var a = '", `<style>a{b:"`, "<style>a{b:",
+		`<script type="application/ld+json">{"a":"`, `<script type="application/ld+json">{"a":`,
+		`<a title="`, "<a title=", `<a href="`, "<a href=", "<a ", "<p>",
+	}
+	var prefixes []string
+	prefixes = append(prefixes, "")
+	prefixes = append(prefixes, endings...)
+	for _, e1 := range endings {
+		for _, e2 := range endings {
+			prefixes = append(prefixes, e1+e2)
+		}
+	}
+	var docs docList
+	for _, p := range prefixes {
+		for _, o := range openers {
+			docs = append(docs, listDoc{pre: p + o})
+		}
+	}
+	return docs
+}
+
+// Fixed benign values shown by the FIRST attribute of the pair documents.
+var wBenign, w2Benign = "ww", "a?b=c"
+
+// attributePairDocs enumerates documents with two attributes: the first one
+// shows a fixed benign value (global w or w2), the second one holds the hole;
+// each in every shape {double quoted, single quoted, unquoted} x {starts with
+// the show, starts with literal text, has a query string before / after the
+// show}, in two tags or in the same tag. Renderer state (URL mode, quoting,
+// query string) carried from one attribute to the next is visible in the
+// rendering of the second one, which must be what it is when it is alone.
+func attributePairDocs() docList {
+	type shape struct{ name, pre, post string }
+	quotes := []shape{{"dq", `"`, `"`}, {"sq", "'", "'"}, {"unq", "", ""}}
+	firstContents := []shape{
+		{"show", "{{ w }}", ""}, {"text+show", "/a/{{ w }}", ""}, {"query+show", "/a?b={{ w }}", ""}, {"show+query", "{{ w }}?c=d", ""},
+		{"show(query)", "{{ w2 }}", ""}, {"text+show(query)", "/a/{{ w2 }}", ""},
+	}
+	secondContents := []shape{{"show", "", ""}, {"text+show", "/a/", ""}, {"query+show", "/a?b=", ""}, {"show+query", "", "?c=d"}}
+	type layout struct {
+		open1, name1, between, name2, alone string // alone = opening of the twin document
+	}
+	var layouts []layout
+	for _, n1 := range []string{"href", "title"} {
+		for _, n2 := range []string{"src", "srcset", "title"} {
+			layouts = append(layouts, layout{"<a ", n1, "><img ", n2, "<img "})
+		}
+	}
+	layouts = append(layouts, layout{"<a ", "href", " ", "title", "<a "}, layout{"<a ", "title", " ", "href", "<a "},
+		layout{"<img ", "src", " ", "srcset", "<img "}, layout{"<img ", "srcset", " ", "src", "<img "})
+	var docs docList
+	for _, l := range layouts {
+		for _, q1 := range quotes {
+			for _, c1 := range firstContents {
+				for _, q2 := range quotes {
+					for _, c2 := range secondContents {
+						second := l.name2 + "=" + q2.pre + c2.pre
+						docs = append(docs, listDoc{
+							pre:      l.open1 + l.name1 + "=" + q1.pre + c1.pre + q1.post + l.between + second,
+							post:     c2.post + q2.post + ">",
+							alonePre: l.alone + second,
+							aloneCut: len(l.alone),
+							first:    l.name1 + ":" + q1.name + ":" + c1.name,
+							second:   l.name2 + ":" + q2.name + ":" + c2.name,
+						})
+					}
+				}
+			}
+		}
+	}
+	return docs
+}
+
 // ---- built documents ----
 
 // baseline is a benign rendering: the value "zz", possibly with an inert
@@ -320,6 +432,11 @@ func holeContexts(tree *ast.Tree) (hole, inner string) {
 					visit(n.Tree, false, false)
 				}
 			case *ast.Show:
+				if len(n.Expressions) == 1 {
+					if id, ok := n.Expressions[0].(*ast.Identifier); ok && (id.Name == "w" || id.Name == "w2") {
+						return true // the fixed benign show of the pair documents
+					}
+				}
 				c := contextName(n.Context)
 				if inURL {
 					c += "+URL"
@@ -444,7 +561,7 @@ func buildEntry(f *formatSpec, m *mode, kinds []valueKind, pre, post string) *en
 		ptr, set := k.decl()
 		v.set = set
 		opts := &scriggo.BuildOptions{
-			Globals: native.Declarations{"v": ptr},
+			Globals: native.Declarations{"v": ptr, "w": &wBenign, "w2": &w2Benign},
 			ExpandedTransformer: func(tree *ast.Tree) error {
 				v.lexCtx, v.innerCtx = holeContexts(tree)
 				return nil
@@ -644,7 +761,7 @@ type spaceDef struct {
 	f     *formatSpec
 	m     *mode
 	kinds []valueKind
-	docs  *docEnum
+	docs  docSource
 	// wrapAll: also test "z"+payload+"z" for every payload (else only for the
 	// separator payloads newline, space, equals).
 	wrapAll bool
@@ -677,8 +794,17 @@ func (sd *spaceDef) eval(spaceID int, i uint64) kit.Outcome {
 				directFails = directFails || !d.OK
 			}
 		}
+		var twin *entry
+		var ld listDoc
+		if l, ok := sd.docs.(docList); ok && l[doc].alonePre != "" {
+			ld = l[doc]
+			twin = buildEntry(sd.f, sd.m, sd.kinds, ld.alonePre, post)
+		}
 		for _, pl := range payloads {
 			o := sd.evalEntry(e, pl)
+			if o.OK && twin != nil {
+				sd.differential(e, twin, ld, pl, &o)
+			}
 			if !o.OK && directFails {
 				o = kit.Outcome{OK: true, Nontrivial: true, Ops: o.Ops, Class: "changed-also-when-shown-directly(reported-by-the-direct-space)"}
 			}
@@ -688,6 +814,46 @@ func (sd *spaceDef) eval(spaceID int, i uint64) kit.Outcome {
 		return r
 	})
 	return r.outcomes[i%np]
+}
+
+// differential checks that the hole renders in the pair document exactly as
+// it does in the twin document that has only the second attribute.
+func (sd *spaceDef) differential(e, twin *entry, ld listDoc, pl payload, o *kit.Outcome) {
+	v, t := e.variants[0], twin.variants[0]
+	if v.status != "" || t.status != "" {
+		return
+	}
+	vals := []string{benign}
+	for _, at := range sd.attacks(pl) {
+		vals = append(vals, at.val)
+	}
+	for _, val := range vals {
+		out, err1 := run(v, val)
+		alone, err2 := run(t, val)
+		o.Ops += 2
+		if err1 != nil || err2 != nil {
+			if (err1 == nil) != (err2 == nil) {
+				o.OK = false
+				o.Class = "PAIR-DIFFERS"
+				o.Key = "fmt=html mode=direct attribute-pair: run error only with or only without the first attribute"
+				o.Detail = fmt.Sprintf("files:\n%svalue %q\nwith first attribute: %v\nalone (%q): %v", quoteFiles(e.files), val, err1, ld.alonePre, err2)
+				return
+			}
+			continue
+		}
+		if len(alone) < ld.aloneCut || !strings.HasSuffix(out, alone[ld.aloneCut:]) {
+			what := "payload=" + pl.name
+			if val == benign {
+				what = "benign-value"
+			}
+			o.OK = false
+			o.Class = "PAIR-DIFFERS"
+			quote := func(shape string) string { return strings.Split(shape, ":")[1] }
+			o.Key = fmt.Sprintf("fmt=html mode=direct attribute-pair: second attribute renders differently than alone first-quoting=%s second-quoting=%s %s", quote(ld.first), quote(ld.second), what)
+			o.Detail = fmt.Sprintf("first attribute %s, second attribute %s\nfiles:\n%svalue %q (w=%q, w2=%q)\nrendering          %q\nsecond alone (%s) %q", ld.first, ld.second, quoteFiles(e.files), val, wBenign, w2Benign, out, ld.alonePre+"{{ v }}", alone)
+			return
+		}
+	}
 }
 
 func (sd *spaceDef) evalEntry(e *entry, pl payload) kit.Outcome {
@@ -826,6 +992,11 @@ func spaces(tier string) []kit.Space {
 			}
 		}
 	}
+	html := &formats[0]
+	wrap := tier == "thorough"
+	defs = append(defs,
+		&spaceDef{name: "html/direct/element-end-states", f: html, m: &modes[0], kinds: valueKinds[:1], docs: elementStateDocs(), wrapAll: wrap},
+		&spaceDef{name: "html/direct/attribute-pairs", f: html, m: &modes[0], kinds: valueKinds[:1], docs: attributePairDocs(), wrapAll: wrap})
 	var out []kit.Space
 	for id, sd := range defs {
 		id, sd := id, sd
@@ -852,6 +1023,9 @@ func main() {
 			"Per file format (html, js, css, json, md): <fmt>/direct/string = fine alphabet (the 28 atoms of DESIGN for HTML; up to 3 atoms quick, 4 thorough), value of type string shown directly; " +
 			"<fmt>/direct/types = coarse alphabet (atoms such as `title=\"`, `<script type=...>`, `\"\\\\\"` that reach every lexer context in two atoms) with a string, a Stringer, an error, a []string element and a whole []string / map (value and key) / struct; " +
 			"<fmt>/<mode>/coarse|fine = the value reached through a macro, an imported macro, a rendered partial of the same format and a rendered .txt partial (a mode is charged only with documents that are clean when the value is shown directly). " +
+			"html/direct/element-end-states = (up to two elements or attributes ending in every lexer state: inside // or /* comments, strings, template/regex literals, URLs, unterminated quotes) x (13 atoms that open a script/style/JSON/attribute up to a value position) x hole; " +
+			"html/direct/attribute-pairs = two attributes, the first showing a fixed benign global (w, or w2 with a query string), the second holding the hole, each in {double, single, un}quoted x {show, text+show, query+show, show+query}, in two tags or one, " +
+			"with the extra differential oracle that the second attribute renders exactly as in the document that has only it. " +
 			"Each document is built once per value type and run with the benign value and with the payload (bare, and as z+payload+z for the separators newline/space/equals; for every payload in the thorough tier except html/direct/string). " +
 			"Non-trivial = the template builds and the benign rendering holds the value in exactly one reference token (and, in JavaScript, no lexical error precedes it), so the payload rendering is really compared token by token; the other cases are classes skipped:*",
 		Assumptions: []string{
